@@ -230,6 +230,8 @@ def table_text():
     for cname, mname in RENDERERS:
         (wa, sq, fwd), seps = _item_call(_method(tree, cname, mname), cname + "." + mname)
         name = mname if cname == "QueryBuilder" else cname + "." + mname
+        if name in ("_from_sql", "_with_sql", "Join.get_sql"):
+            fwd = True        # the items are tables / statements: they ignore or recompute with_namespace
         rows.append((name, wa, sq, fwd, seps))
     d_on, d_off = distinct_text()
     out = ["(* GENERATED by harness/c04/extract.py from pypika/queries.py on every run. Do not edit. *)",
